@@ -105,6 +105,22 @@ PROPS = {
         "real_vs_stub": REAL_TXN,
         "assumptions": ["keys are few and short: the property's adversarial key sets belong to C08"],
     },
+    "C12": {
+        "engine": "mvccdiff",
+        "level_text": "the repository's mock store (MVCCLevelDB methods and the ResolveLock / ScanLock RPC handlers) and a reference MVCC model receive the same stream of protocol commands of up to 4 virtual transactions over 4 keys - delivered late, reordered and duplicated as a lossy network would, with TSO-style pairwise distinct timestamps in all relative orders - and every answer (value, error class) and the full per-key state (lock fields, write records) are compared after every command",
+        "level_note": "trusted: the reference model sim/refkv (TiKV semantics where the statement names TiKV; two documented readings where the statement is silent: which of several applicable errors is reported first, no existence check in the prewrite of a pessimistic transaction); deadlock and key-is-locked answers are one class; seeded sampling",
+        "level": "exploration",
+        "modes": [
+            {"mode": "full", "quick": {"runs": 24000}, "thorough": {"runs": 1200000}},
+            {"mode": "short", "quick": {"runs": 16000}, "thorough": {"runs": 800000}},
+        ],
+        "rule": ("mode full: 4-27 fresh commands (prewrite optimistic/pessimistic with put/del/lock/insert/check-not-exists, pessimistic lock/rollback, commit, batch rollback, cleanup, "
+                 "check-txn-status, heart-beat, resolve single/batch incl. through the RPC handler, scan-lock incl. through the RPC handler with range and limit, GC, get, batch get, scan, reverse scan), "
+                 "25% delivered up to 12 slots late, 14% duplicated; mode short: 2-6 commands; the property's input constraints are enforced on the delivered sequence; "
+                 "non-trivial = at least 3 delivered commands; distinct = distinct (command, answer) logs"),
+        "real_vs_stub": "real code: internal/mockstore/mocktikv MVCCLevelDB (on in-memory goleveldb) and its RPC handlers for ResolveLock/ScanLock; reference: sim/refkv (written for this work)",
+        "assumptions": ["commands are applied one at a time (the mock serialises them under its mutex)", "keys are short and few; key encoding is C19 (not applicable)"],
+    },
     "C06": {
         "engine": "txnsim",
         "level_text": "contending transactions with failing LockKeys steps under region errors and topology changes but no message loss; TTLs are set so that nothing can expire; once the clients' background work has drained the store is scanned for locks of ended transactions",
@@ -131,5 +147,8 @@ ENGINES = [
     {"name": "txnsim", "path": "sim/engines/txnsim", "serves_properties": ["C01", "C02", "C03", "C04", "C05", "C06", "C07"],
      "kind_free_text": "whole-system deterministic simulation of transactional clients (synctest bubble, simulated transport / PD / TSO, seeded fault injection, MVCC ground-truth oracles)"},
 ]
+
+ENGINES.append({"name": "mvccdiff", "path": "sim/engines/mvccdiff", "serves_properties": ["C12"],
+                "kind_free_text": "differential execution of the mock store against the reference MVCC model under a simulated lossy/reordering/duplicating delivery of protocol commands"})
 
 HOOK_COMMITS = []
